@@ -92,7 +92,7 @@ func main() {
 		return
 	}
 	if id == "--warm" {
-		for _, fl := range []string{"plain", "shim"} {
+		for _, fl := range []string{"plain", "shim", "cmd"} {
 			scratch, err := os.MkdirTemp("/var/tmp", "vcheck-warm-")
 			if err != nil {
 				fatal(2, "scratch: %v", err)
@@ -140,7 +140,8 @@ func main() {
 
 	if *replay != "" {
 		cmd := exec.Command(bin, "replay", "--prop", id, "--file", *replay)
-		cmd.Stdout, cmd.Stderr, cmd.Env = os.Stdout, os.Stderr, env()
+		cmd.Stdout, cmd.Stderr, cmd.Env = os.Stdout, os.Stderr, append(env(), "VERIF_SCRATCH="+scratch,
+			"VERIF_JP5="+filepath.Join(scratch, "jp5"), "VERIF_JP4="+filepath.Join(scratch, "jp4"))
 		if err := cmd.Run(); err != nil {
 			if ee, ok := err.(*exec.ExitError); ok {
 				exit(ee.ExitCode())
@@ -157,6 +158,9 @@ func main() {
 	}
 	cmd := exec.Command(bin, args...)
 	cmd.Env = append(env(), "VERIF_SCRATCH="+scratch, "VERIF_REPO="+repoDir)
+	if flavour == "cmd" {
+		cmd.Env = append(cmd.Env, "VERIF_JP5="+filepath.Join(scratch, "jp5"), "VERIF_JP4="+filepath.Join(scratch, "jp4"))
+	}
 	cmd.Dir = scratch
 	var stderr strings.Builder
 	cmd.Stdout, cmd.Stderr = os.Stdout, &stderr
